@@ -535,7 +535,15 @@ fn run_case<H: HashAlgorithm>(case: &Case, scratch: &Path, out: &mut dyn Write) 
     // ---- multi-proofs (C07) and their mutants (C08 / C18)
     for mi in 0..case.multis {
         watchdog::progress(&format!("proofs case {} multi {mi}", case.id));
-        let mut chosen: Vec<&(Vec<u8>, TProof, PathProof)> = honest.iter().filter(|_| rng.chance(1, 2)).collect();
+        // odd rounds: a random subset of the keys; even rounds: every key under a random sub-trie (a complete
+        // sub-trie is covered, what lies beside it is known by sibling hashes only)
+        let mut chosen: Vec<&(Vec<u8>, TProof, PathProof)> = if mi % 2 == 1 {
+            honest.iter().filter(|_| rng.chance(1, 2)).collect()
+        } else {
+            let anchor = &honest[rng.below(honest.len() as u64) as usize].0;
+            let d = 1 + rng.below(anchor.len() as u64 - 1) as usize;
+            honest.iter().filter(|h| h.0[..d] == anchor[..d]).collect()
+        };
         if chosen.is_empty() {
             chosen.push(&honest[rng.below(honest.len() as u64) as usize]);
         }
@@ -701,7 +709,8 @@ fn multi_record<H: HashAlgorithm>(
                         rec["updBad"] = json!({"kind": umal, "res": match r { Err(_) => "PANIC".to_string(), Ok(Err(e)) => format!("{e:?}"), Ok(Ok(_)) => "Ok".to_string() }});
                     }
                 }
-                if !ops.is_empty() {
+                // one in-scope sorted write set checked through the multi-proof and through the per-path verifier
+                let check_update = |ops: &Vec<(Vec<u8>, Option<String>)>| -> J {
                     let real_ops: Vec<(Key, Option<[u8; 32]>)> = ops.iter()
                         .map(|(k, v)| (sp.real_key(k), v.as_ref().map(|v| H::hash_value(&sp.value_bytes(k, v))))).collect();
                     let mres = catch_unwind(AssertUnwindSafe(|| proof::verify_multi_proof_update::<H>(&v, real_ops.clone())));
@@ -721,7 +730,7 @@ fn multi_record<H: HashAlgorithm>(
                     }
                     let pres = catch_unwind(AssertUnwindSafe(|| proof::verify_update::<H>(root, &ups)));
                     let mut newkv: BTreeMap<Vec<u8>, String> = case.kv.iter().cloned().collect();
-                    for (k, v) in &ops {
+                    for (k, v) in ops {
                         match v {
                             Some(v) => { newkv.insert(k.clone(), v.clone()); }
                             None => { newkv.remove(k); }
@@ -731,9 +740,39 @@ fn multi_record<H: HashAlgorithm>(
                     let new_root = sp.eval::<H>(&build::<H>(sp, &newkv_vec).root());
                     let (ms, mroot) = match mres { Err(_) => ("PANIC".to_string(), None), Ok(Err(e)) => (format!("{e:?}"), None), Ok(Ok(r)) => ("Ok".to_string(), Some(r)) };
                     let (ps, proot) = match pres { Err(_) => ("PANIC".to_string(), None), Ok(Err(e)) => (format!("{e:?}"), None), Ok(Ok(r)) => ("Ok".to_string(), Some(r)) };
-                    rec["upd"] = json!({"ops": ops.iter().map(|(k,v)| json!([k, v.clone().unwrap_or("Nil".into())])).collect::<Vec<_>>(),
+                    json!({"ops": ops.iter().map(|(k,v)| json!([k, v.clone().unwrap_or("Nil".into())])).collect::<Vec<_>>(),
                         "multiRes": ms, "pathRes": ps, "newKv": kv_json(&newkv_vec),
-                        "multiRootMatches": mroot == Some(new_root), "pathRootMatches": proot == Some(new_root)});
+                        "multiRootMatches": mroot == Some(new_root), "pathRootMatches": proot == Some(new_root)})
+                };
+                if !ops.is_empty() {
+                    rec["upd"] = check_update(&ops);
+                }
+                // structured write sets: every in-scope key under a random sub-trie is deleted (compaction across
+                // emptied sub-tries next to terminators), alone or together with a few other operations
+                let in_scope: Vec<&Vec<u8>> = case.universe.iter().filter(|q| v.find_index_for(&sp.real_key(q)).is_ok()).collect();
+                let mut upds = Vec::new();
+                for _ in 0..3 {
+                    if in_scope.is_empty() {
+                        break;
+                    }
+                    let anchor = in_scope[rng.below(in_scope.len() as u64) as usize];
+                    let d = 1 + rng.below(anchor.len() as u64 - 1) as usize;
+                    let mut wops: Vec<(Vec<u8>, Option<String>)> = Vec::new();
+                    for q in &in_scope {
+                        if q[..d] == anchor[..d] {
+                            wops.push(((*q).clone(), None));
+                        } else if rng.chance(1, 5) {
+                            let val = if rng.chance(1, 2) { None } else { Some(case.vals[rng.below(case.vals.len() as u64) as usize].clone()) };
+                            wops.push(((*q).clone(), val));
+                        }
+                    }
+                    wops.sort();
+                    if !wops.is_empty() {
+                        upds.push(check_update(&wops));
+                    }
+                }
+                if !upds.is_empty() {
+                    rec["upds"] = J::Array(upds);
                 }
             }
         }
